@@ -85,7 +85,22 @@ func (n NodeSet) String() string {
 		return ""
 	}
 
-	return GetCursorString(n[0])
+	return GetCursorString(n.first())
+}
+
+// first returns the node that comes first in document order. A node-set is
+// not necessarily sorted that way: a reverse axis yields reverse document
+// order, and a node-set bound to a variable is in the caller's order.
+func (n NodeSet) first() store.Cursor {
+	first := n[0]
+
+	for _, i := range n[1:] {
+		if i.Pos() < first.Pos() {
+			first = i
+		}
+	}
+
+	return first
 }
 
 func (n NodeSet) Number() float64 {
